@@ -33,6 +33,47 @@ func init() { reg.Register("C26", c26) }
 
 type c26Feat struct {
 	save, kept, multiSrc, sameAccountTwice, srcAllot, star, twoSends bool
+	portionsOver100, keptBeforeMax, worldVarAsSource                 bool
+}
+
+func portionsExceedOne(por []string, env *gen.Env) bool {
+	sum := new(big.Rat)
+	for _, p := range por {
+		r, rem, ok := env.Portion(p)
+		if !ok || rem {
+			continue
+		}
+		sum.Add(sum, r)
+	}
+	return sum.Cmp(big.NewRat(1, 1)) > 0
+}
+
+func (f *c26Feat) walkDst(d *gen.Dst, env *gen.Env) {
+	if d == nil || d.K == gen.DAcc {
+		return
+	}
+	kd := func(k gen.KD) {
+		if !k.Kept {
+			f.walkDst(k.D, env)
+		}
+	}
+	switch d.K {
+	case gen.DSeq:
+		for i, k := range d.To {
+			if k.Kept && i < len(d.To)-1 {
+				f.keptBeforeMax = true
+			}
+			kd(k)
+		}
+		kd(d.Rem)
+	case gen.DAllot:
+		if portionsExceedOne(d.Por, env) {
+			f.portionsOver100 = true
+		}
+		for _, k := range d.Items {
+			kd(k)
+		}
+	}
 }
 
 func c26Features(p *gen.Program, env *gen.Env) c26Feat {
@@ -50,11 +91,20 @@ func c26Features(p *gen.Program, env *gen.Env) c26Feat {
 			if dstHasKept(s.Dst) {
 				f.kept = true
 			}
+			f.walkDst(s.Dst, env)
 			seen := map[string]int{}
 			var walk func(x *gen.Src)
 			walk = func(x *gen.Src) {
 				if x.K == gen.SAllot {
 					f.srcAllot = true
+					if portionsExceedOne(x.Por, env) {
+						f.portionsOver100 = true
+					}
+				}
+				if strings.HasPrefix(x.Acc, "$") {
+					if a, ok := env.Account(x.Acc); ok && a == "world" {
+						f.worldVarAsSource = true
+					}
 				}
 				if x.Acc != "" {
 					if a, ok := env.Account(x.Acc); ok {
@@ -84,8 +134,12 @@ func c26Features(p *gen.Program, env *gen.Env) c26Feat {
 // (first match wins; the order goes from the most specific suspect).
 func (f c26Feat) construct() string {
 	switch {
+	case f.portionsOver100:
+		return "allotment-portions-sum-over-100pct"
 	case f.save:
 		return "save"
+	case f.keptBeforeMax:
+		return "kept-clause-before-another-max-clause"
 	case f.kept && f.multiSrc:
 		return "kept-with-several-source-accounts"
 	case f.kept:
@@ -182,10 +236,14 @@ func c26() int {
 	tuneRuntime()
 	r := ev.Start("C26", ev.LevelExploration, 100*time.Second, 15*time.Minute)
 	sp := numscriptSpace(r.Thorough())
+	if r.Thorough() {
+		// two runtimes per input: the last (least novel) stage of the thorough space is left to C22/C23
+		sp.Stages = sp.Stages[:len(sp.Stages)-1]
+	}
 	mp := ledgercontroller.NewDefaultNumscriptParser()
 	ip := ledgercontroller.NewInterpreterNumscriptParser(nil)
 	samples := ev.NewSamples(6)
-	var programs, inSubset, onlyMachine, onlyInterp, neither atomic.Int64
+	var programs, inSubset, onlyMachine, onlyInterp, neither, excludedWorldVar atomic.Int64
 	var evals, bothFail, bothOK, agreeWithPostings, zeroIgnored, metaCompared, accMetaCompared, nontrivial, disagreements atomic.Int64
 	var disagreeKinds counterSet
 
@@ -208,6 +266,13 @@ func c26() int {
 		inSubset.Add(1)
 		progNontrivial := false
 		forEachEnv(p, func(env *gen.Env) {
+			feat := c26Features(p, env)
+			if feat.worldVarAsSource {
+				// the machine states it does not support this: "`@world` can only be used as a
+				// variable in the experimental interpreter, or if it is never used as a source"
+				excludedWorldVar.Add(1)
+				return
+			}
 			evals.Add(1)
 			var mres, ires *ledgercontroller.NumscriptExecutionResult
 			var me, ie error
@@ -255,7 +320,7 @@ func c26() int {
 				}
 				r.Note(fmt.Sprintf("panic during C26 run (machine=%v interpreter=%v): %s", mpanic, ipanic, text))
 			}
-			cons := c26Features(p, env).construct()
+			cons := feat.construct()
 			switch {
 			case me != nil && ie != nil:
 				bothFail.Add(1)
@@ -325,18 +390,19 @@ func c26() int {
 		}
 	}
 	cov := ev.Coverage{
-		"evaluations":                        evals.Load(),
-		"distinct_nontrivial":                nontrivial.Load(),
-		"rule":                               sp.Rule + "; C26 keeps the programs accepted by BOTH DefaultNumscriptParser and InterpreterNumscriptParser(no flags): `fail` (absent from the interpreter grammar) and programs the machine compiler rejects statically are outside the shared subset; distinct_nontrivial = distinct shared programs with at least one input where both runtimes succeed with identical non-empty non-zero postings and identical metadata",
-		"samples":                            samples.List(),
-		"exhaustive":                         all,
-		"stages":                             stages,
-		"bounds_fully_covered":               coveredStages(stages),
-		"programs":                           programs.Load(),
-		"programs_in_shared_subset":          inSubset.Load(),
-		"programs_only_machine_accepts":      onlyMachine.Load(),
-		"programs_only_interpreter_accepts":  onlyInterp.Load(),
-		"programs_neither_accepts":           neither.Load(),
+		"evaluations":                       evals.Load(),
+		"distinct_nontrivial":               nontrivial.Load(),
+		"rule":                              sp.Rule + "; C26 keeps the programs accepted by BOTH DefaultNumscriptParser and InterpreterNumscriptParser(no flags): `fail` (absent from the interpreter grammar) and programs the machine compiler rejects statically are outside the shared subset, and so are inputs where an account VARIABLE used as a source holds the value world (the machine refuses them: `@world` can only be used as a variable in the experimental interpreter); distinct_nontrivial = distinct shared programs with at least one input where both runtimes succeed with identical non-empty non-zero postings and identical metadata",
+		"samples":                           samples.List(),
+		"exhaustive":                        all,
+		"stages":                            stages,
+		"bounds_fully_covered":              coveredStages(stages),
+		"programs":                          programs.Load(),
+		"programs_in_shared_subset":         inSubset.Load(),
+		"programs_only_machine_accepts":     onlyMachine.Load(),
+		"programs_only_interpreter_accepts": onlyInterp.Load(),
+		"programs_neither_accepts":          neither.Load(),
+		"inputs_excluded_world_through_variable_as_source": excludedWorldVar.Load(),
 		"inputs_both_fail":                   bothFail.Load(),
 		"inputs_both_succeed":                bothOK.Load(),
 		"inputs_agreeing_with_postings":      agreeWithPostings.Load(),
